@@ -104,12 +104,17 @@ def inHard (hard : Option (Int × Int)) (v : Int) : Bool :=
 (mirrors: bucket/range.rs::get_bucket_pos — binary search on the range starts) -/
 def rangeIdx (cuts : List Int) (v : Int) : Nat := (cuts.filter (· ≤ v)).length
 
+/-- distinct values (structurally recursive: keeps the last occurrence of each value) -/
+def dedup : List Int → List Int
+  | [] => []
+  | x :: xs => if xs.contains x then dedup xs else x :: dedup xs
+
 /-- term keys of a document: distinct values, `missing` for a document without value
 (mirrors: fetch_block_with_missing_unique_per_doc) -/
 def termKeys (p : TermsP) (d : Doc) : List Int :=
   match d.vals p.field with
   | [] => p.missing.toList
-  | vs => vs.eraseDups
+  | vs => dedup vs
 
 /-- bucket positions of a document, one per value inside the hard bounds -/
 def histPoss (p : HistP) (d : Doc) : List Int :=
